@@ -720,6 +720,9 @@ void File::uncompressedFile2ReadWriteQueue() {
     if (obj == nullptr) {
         /* in case of unknown objectType */
         m_uncompressedFile.seekg(ohb.objectSize, std::ios_base::cur);
+
+        /* drop old data */
+        m_uncompressedFile.dropOldData();
         return;
     }
 
